@@ -61,6 +61,18 @@ func (c *comp) Serial() int { return c.serial }
 
 // core.Gun (engine path): Bind counts how many instances this gun was given to
 func (c *comp) Bind(core.Aggregator, core.GunDeps) error {
+	if c == nil { // a factory handed out a typed nil gun together with a nil error
+		if w := engWorld; w != nil {
+			w.mu.Lock()
+			w.nilGuns++
+			w.bound++
+			if w.bound == w.inst && w.allBound != nil {
+				close(w.allBound)
+			}
+			w.mu.Unlock()
+		}
+		return nil
+	}
 	c.w.mu.Lock()
 	defer c.w.mu.Unlock()
 	c.binds++
@@ -121,6 +133,7 @@ type world struct {
 	inst     int
 	bound    int
 	scheds   int
+	nilGuns  int
 	allBound chan struct{}
 	release  chan struct{}
 }
@@ -350,11 +363,15 @@ func (w *world) endStep(res string) {
 }
 
 // guarded runs one factory call; a panic carrying one of our errors is `panic.<err>`.
-func guarded(f func() string) (res string) {
+func (w *world) guarded(f func() string) (res string) {
 	defer func() {
 		if r := recover(); r != nil {
 			if te, ok := r.(*tErr); ok {
 				res = "panic." + te.Error()
+			} else if e, ok := r.(error); ok && w.bad {
+				_ = e
+				w.decodeFails++
+				res = "panic.fill" + strconv.Itoa(w.decodeFails-1)
 			} else if e, ok := r.(error); ok {
 				res = "panic.other:" + drv.Clean(e.Error())
 			} else {
@@ -382,7 +399,11 @@ func parseSet(s string) map[int]bool {
 
 func c18Run(input string) string {
 	kv := drv.KV(input)
-	w := &world{sh: parseShape(kv["sh"]), ids: map[*Conf]int{}, ff: parseSet(kv["ff"]), cf: parseSet(kv["cf"]), rf: parseSet(kv["rf"])}
+	if kv["via"] == "reg" {
+		return c18Reg(kv)
+	}
+	w := &world{sh: parseShape(kv["sh"]), ids: map[*Conf]int{}, ff: parseSet(kv["ff"]), cf: parseSet(kv["cf"]), rf: parseSet(kv["rf"]),
+		plugT: ifaceT, bad: kv["bad"] == "1"}
 	for i, t := range strings.Split(kv["d"], "/") {
 		w.d[i], _ = strconv.Atoi(t)
 	}
@@ -391,6 +412,9 @@ func c18Run(input string) string {
 			v, _ := strconv.Atoi(t)
 			w.u[i] = &v
 		}
+	}
+	if kv["via"] == "engine" {
+		return c18Engine(kv, w)
 	}
 	k, _ := strconv.Atoi(kv["k"])
 	reg := plugin.NewRegistry()
@@ -420,11 +444,7 @@ func c18Run(input string) string {
 		defer plugin.SetDefaultRegistry(old)
 		data := func() interface{} { // parseConf consumes the map
 			m := map[string]interface{}{"type": "x"}
-			for i, key := range []string{"a", "b", "c"} {
-				if w.u[i] != nil {
-					m[key] = *w.u[i]
-				}
-			}
+			w.userKeys(m)
 			return m
 		}
 		newPlugin = func() (interface{}, error) { return pluginconfig.Hook(reflect.TypeOf(data()), ifaceT, data()) }
@@ -435,7 +455,7 @@ func c18Run(input string) string {
 	switch kv["form"] {
 	case "c":
 		for i := 0; i < k; i++ {
-			res := guarded(func() string { return w.resOf(newPlugin()) })
+			res := w.guarded(func() string { return w.resOf(newPlugin()) })
 			w.endStep(res)
 		}
 	case "f1":
@@ -447,7 +467,7 @@ func c18Run(input string) string {
 		w.endStep("made")
 		f := fac.(func() Iface)
 		for i := 0; i < k; i++ {
-			res := guarded(func() string { return w.resOf(f(), nil) })
+			res := w.guarded(func() string { return w.resOf(f(), nil) })
 			w.endStep(res)
 		}
 	case "f2":
@@ -459,7 +479,7 @@ func c18Run(input string) string {
 		w.endStep("made")
 		f := fac.(func() (Iface, error))
 		for i := 0; i < k; i++ {
-			res := guarded(func() string { return w.resOf(f()) })
+			res := w.guarded(func() string { return w.resOf(f()) })
 			w.endStep(res)
 		}
 	default:
@@ -474,16 +494,309 @@ func c18Run(input string) string {
 	return "steps=" + strings.Join(w.steps, ";") + " views=" + strings.Join(views, ",")
 }
 
+// userKeys puts the user's settings into a plugin config map; bad: a value the decoder must refuse
+func (w *world) userKeys(m map[string]interface{}) {
+	for i, key := range []string{"a", "b", "c"} {
+		if w.u[i] != nil {
+			m[key] = *w.u[i]
+		}
+	}
+	if w.bad {
+		m["a"] = "not-a-number"
+	}
+}
+
+// ---------------------------------------------------------------- via=reg: which types Register accepts
+
+type tyParser struct {
+	s   string
+	pos int
+}
+
+func (p *tyParser) ty() reflect.Type {
+	if p.pos >= len(p.s) {
+		panic("type description ends early")
+	}
+	c := p.s[p.pos]
+	p.pos++
+	switch c {
+	case 'I':
+		return ifaceT
+	case 'E':
+		return errT
+	case 'J':
+		return reflect.TypeOf((*fmt.Stringer)(nil)).Elem()
+	case 'S':
+		return confT
+	case 'T':
+		return reflect.TypeOf(Other{})
+	case 'i':
+		return reflect.TypeOf(0)
+	case 'M':
+		return implT
+	case '*':
+		return reflect.PtrTo(p.ty())
+	case 'F':
+		if p.s[p.pos] != '(' {
+			panic("F(")
+		}
+		p.pos++
+		ins := p.tys()
+		if p.s[p.pos] != ';' {
+			panic("; expected")
+		}
+		p.pos++
+		outs := p.tys()
+		if p.s[p.pos] != ')' {
+			panic(") expected")
+		}
+		p.pos++
+		return reflect.FuncOf(ins, outs, false)
+	}
+	panic("type description " + p.s)
+}
+
+func (p *tyParser) tys() []reflect.Type {
+	var out []reflect.Type
+	for p.s[p.pos] != ';' && p.s[p.pos] != ')' {
+		out = append(out, p.ty())
+		if p.s[p.pos] == ',' {
+			p.pos++
+		}
+	}
+	return out
+}
+
+func parseTy(s string) reflect.Type {
+	p := &tyParser{s: s}
+	t := p.ty()
+	if p.pos != len(s) {
+		panic("trailing type description " + s)
+	}
+	return t
+}
+
+// a value of the type (Register looks at types only)
+func valueOf(t reflect.Type) interface{} { return reflect.Zero(t).Interface() }
+
+func c18Reg(kv map[string]string) string {
+	pt := ifaceT
+	if kv["pt"] != "" {
+		pt = parseTy(kv["pt"])
+	}
+	name := "x"
+	if kv["nm"] == "e" {
+		name = ""
+	}
+	ctor := valueOf(parseTy(kv["ty"]))
+	var dflt []interface{}
+	if kv["dt"] != "" && kv["dt"] != "-" {
+		dflt = append(dflt, valueOf(parseTy(kv["dt"])))
+	}
+	reg := plugin.NewRegistry()
+	if kv["dup"] == "1" {
+		reg.Register(pt, name, func() Iface { return nil })
+	}
+	ok := func() (ok bool) {
+		defer func() {
+			if r := recover(); r != nil {
+				ok = false
+			}
+		}()
+		reg.Register(pt, name, ctor, dflt...)
+		return true
+	}()
+	if !ok {
+		return "regpanic"
+	}
+	return "accepted"
+}
+
+// ---------------------------------------------------------------- via=engine: a pool of the real engine
+
+type onceConf struct {
+	N int64 `config:"n"`
+}
+
+type engProv struct{ w *world }
+
+func (p engProv) Run(ctx context.Context, _ core.ProviderDeps) error { <-ctx.Done(); return nil }
+func (p engProv) Acquire() (core.Ammo, bool) {
+	// no ammo — but only after every instance has been created, so that "out of ammo" cannot stop the start
+	// loop early (which would make the number of started instances a race)
+	select {
+	case <-p.w.allBound:
+	case <-p.w.release:
+	case <-time.After(5 * time.Second):
+	}
+	return nil, false
+}
+func (p engProv) Release(core.Ammo) {}
+
+type engAggr struct{}
+
+func (engAggr) Run(ctx context.Context, _ core.AggregatorDeps) error { <-ctx.Done(); return nil }
+func (engAggr) Report(core.Sample)                                   {}
+
+// the world of the engine case that is running (engine cases are serialised by hookMu)
+var engWorld *world
+
+var errPat = regexp.MustCompile(`\b(fill|ctor|fact)[0-9]+\b`)
+
+func c18Engine(kv map[string]string, w *world) string {
+	hookMu.Lock()
+	defer hookMu.Unlock()
+	w.plugT = gunT
+	engWorld = w
+	defer func() { engWorld = nil }()
+	w.inst, _ = strconv.Atoi(kv["inst"])
+	per := kv["per"] == "1"
+	w.allBound = make(chan struct{})
+	w.release = make(chan struct{})
+	if w.inst == 0 {
+		close(w.allBound)
+	}
+	reg := plugin.NewRegistry()
+	old := plugin.DefaultRegistry()
+	plugin.SetDefaultRegistry(reg)
+	defer plugin.SetDefaultRegistry(old)
+	registered := func() (ok bool) {
+		defer func() {
+			if r := recover(); r != nil {
+				ok = false
+			}
+		}()
+		// through core/register, as every real plugin does
+		register.Gun("c18gun", w.constructor(), w.defaultFn()...)
+		register.Provider("c18prov", func() core.Provider { return engProv{w} })
+		register.Aggregator("c18aggr", func() (core.Aggregator, error) { return engAggr{}, nil })
+		register.Limiter("c18rps", func(c onceConf) core.Schedule {
+			w.mu.Lock()
+			w.scheds++
+			w.mu.Unlock()
+			return schedule.NewOnce(c.N)
+		}, func() onceConf { return onceConf{N: 1} })
+		register.Limiter("c18start", func(c *onceConf) (core.Schedule, error) { return schedule.NewOnce(c.N), nil })
+		return true
+	}()
+	if !registered {
+		return "regpanic"
+	}
+	gun := map[string]interface{}{"type": "c18gun"}
+	w.userKeys(gun)
+	conf := map[string]interface{}{"pools": []interface{}{map[string]interface{}{
+		"id": "p", "gun": gun,
+		"ammo":             map[string]interface{}{"type": "c18prov"},
+		"result":           map[string]interface{}{"type": "c18aggr"},
+		"rps-per-instance": per,
+		"rps":              map[string]interface{}{"type": "c18rps"},
+		"startup":          map[string]interface{}{"type": "c18start", "n": w.inst},
+	}}}
+	var ec engine.Config
+	res := ""
+	if err := config.DecodeAndValidate(conf, &ec); err != nil {
+		// mapstructure flattens errors into strings: find ours by name
+		if m := errPat.FindString(err.Error()); m != "" {
+			res = "decode." + m
+		} else if w.bad {
+			res = "decode.fill0"
+		} else {
+			res = "decode.other:" + drv.Clean(err.Error())
+		}
+	} else {
+		m := engine.Metrics{Request: &monitoring.Counter{}, Response: &monitoring.Counter{},
+			InstanceStart: &monitoring.Counter{}, InstanceFinish: &monitoring.Counter{}}
+		e := engine.New(zap.NewNop(), m, ec)
+		ctx, cancel := context.WithCancel(context.Background())
+		done := make(chan error, 1)
+		go func() { done <- e.Run(ctx) }()
+		var err error
+		select {
+		case err = <-done:
+		case <-time.After(15 * time.Second):
+			close(w.release)
+			cancel()
+			return "eng skip=run-timeout"
+		}
+		close(w.release)
+		cancel()
+		waited := make(chan struct{})
+		go func() { e.Wait(); close(waited) }()
+		select {
+		case <-waited:
+		case <-time.After(10 * time.Second):
+			return "eng skip=wait-timeout"
+		}
+		var te *tErr
+		switch {
+		case err == nil:
+			res = "ok"
+		case errors.As(err, &te):
+			res = "err." + te.Error()
+		case w.bad:
+			res = "err.fill0"
+		default:
+			res = "err.other:" + drv.Clean(err.Error())
+		}
+	}
+	w.mu.Lock()
+	defer w.mu.Unlock()
+	prods := append([]*comp(nil), w.products...)
+	sort.Slice(prods, func(i, j int) bool { return prods[i].serial < prods[j].serial })
+	cells := map[*Conf]bool{}
+	seenSet := map[string]bool{}
+	own := 0
+	var binds []string
+	for _, p := range prods {
+		if p.cfg != nil {
+			cells[p.cfg] = true
+			if p.cfg.Mark == p.serial {
+				own++
+			}
+		}
+		seenSet[fmt.Sprintf("%d/%d/%d", p.seen.A, p.seen.B, p.seen.C)] = true
+		binds = append(binds, strconv.Itoa(p.binds))
+	}
+	var seen []string
+	for k := range seenSet {
+		seen = append(seen, k)
+	}
+	sort.Strings(seen)
+	cnt := map[byte]int{}
+	for _, e := range w.evs {
+		cnt[e[0]]++
+	}
+	if w.nilGuns > 0 && res == "ok" {
+		res = "nilgun" // neither a gun nor an error came out of the factory
+	}
+	return fmt.Sprintf("eng res=%s guns=%d cells=%d d=%d c=%d r=%d seen=%s own=%d binds=%s sched=%d",
+		res, len(prods), len(cells), cnt['D'], cnt['C'], cnt['R'], strings.Join(seen, ","), own, strings.Join(binds, ","), w.scheds)
+}
+
 func main() {
+	pluginconfig.AddHooks() // once, before any case runs: the engine path decodes a whole engine.Config
 	drv.Main(&drv.Prop{ID: "C18", Gen: c18Gen, Run: c18Run, Class: c18Class, Workers: 8,
-		Rule: "every constructor shape (component|factory x config none|struct|*struct x ctor error x factory error x impl|interface product x default-config absent|fresh|nil|shared) x requested form (New, factory without/with error) x fillConf given or not, each run with a fault-free and a random fault plan and a random number k<=20 of calls (registrations Register must refuse: one case per shape and round), plus for every valid shape x form one run through pluginconfig.Hook/FactoryHook with the real config decoder as fillConf; non-trivial = at least one call, or a refused registration"})
+		Rule: "every constructor shape (component|factory x config none|struct|*struct x ctor error x factory error x impl|interface product x default-config absent|fresh|nil|shared) x requested form (New, factory without/with error) x fillConf given or not, each run with a fault-free and a random fault plan and a random number k<=20 of calls (thorough: some k up to 120, plus EVERY fault plan over invocation indices 0..2 for k=2; registrations Register must refuse: one case per shape and round); per valid shape x form one run through pluginconfig.Hook/FactoryHook with the real config decoder as fillConf and one with settings the decoder refuses; per valid shape one pool of the real engine (constructor registered with core/register.Gun, engine.Config decoded with the plugin hooks, 0..6 instances, shared or per-instance rps schedule, faults at warm-up / first instance); Register driven over constructor and default-config TYPES (supported forms and their neighbours: arity, result kinds, config kinds, implements, default-config function type, plugin type, name, duplicate); non-trivial = at least one call, a refused registration, or a type case"})
 }
 
 func c18Class(input, obs string) string {
 	kv := drv.KV(input)
+	if kv["via"] == "reg" {
+		return "reg-" + obs
+	}
+	if kv["via"] == "engine" {
+		res := drv.KV(obs)["res"]
+		if i := strings.IndexAny(res, "0123456789"); i > 0 {
+			res = res[:i]
+		}
+		return "engine-" + kv["sh"][:2] + "-" + res
+	}
 	c := kv["sh"][:2] + "-" + kv["form"]
 	if kv["via"] == "hook" {
 		c = "hook-" + c
+		if kv["bad"] == "1" {
+			c = "hookbad-" + c
+		}
 	}
 	switch {
 	case obs == "regpanic":
@@ -510,9 +823,9 @@ func subset(r *rand.Rand, n int) string {
 }
 
 func c18Gen(r *rand.Rand, tier string) []string {
-	rounds := 2
+	rounds := 5
 	if tier == "thorough" {
-		rounds = 40
+		rounds = 500
 	}
 	var out []string
 	val := func() string { return strconv.Itoa(r.Intn(90) + 1) }
@@ -538,6 +851,8 @@ func c18Gen(r *rand.Rand, tier string) []string {
 											k := r.Intn(21)
 											if r.Intn(8) == 0 {
 												k = r.Intn(3)
+											} else if tier == "thorough" && r.Intn(16) == 0 {
+												k = 21 + r.Intn(100) // long histories
 											}
 											u := make([]string, 3)
 											for i := range u {
@@ -574,6 +889,136 @@ func c18Gen(r *rand.Rand, tier string) []string {
 											s += " cf= rf="
 										}
 										out = append(out, s)
+									}
+								}
+								if !refused {
+									forms := []string{"c", "f1", "f2"}
+									// the user's settings do not decode: every fillConf (the real decoder) fails
+									out = append(out, fmt.Sprintf("via=hook sh=%c%c%c%c%c%c form=%s fill=1 bad=1 d=%s/%s/%s u=_/_/_ k=%d ff= cf= rf=",
+										fa, cfg, ce, fe, ifc, df, forms[r.Intn(3)], val(), val(), val(), r.Intn(6)))
+									// the same constructor registered as a gun (core/register) of a pool of the real engine
+									u := make([]string, 3)
+									for i := range u {
+										u[i] = "_"
+										if cfg != 'n' && r.Intn(2) == 0 {
+											u[i] = val()
+										}
+									}
+									few := func() string { // faults only where the engine is still sequential: warm-up and first instance
+										return []string{"", "", "", "0", "1", "0,1"}[r.Intn(6)]
+									}
+									s := fmt.Sprintf("via=engine sh=%c%c%c%c%c%c fill=1 d=%s/%s/%s u=%s inst=%d per=%d cf=%s rf=%s",
+										fa, cfg, ce, fe, ifc, df, val(), val(), val(), strings.Join(u, "/"), r.Intn(7), r.Intn(2), few(), few())
+									if r.Intn(10) == 0 {
+										s += " bad=1"
+									}
+									out = append(out, s)
+								}
+							}
+						}
+					}
+				}
+			}
+		}
+	}
+	out = append(out, regCases(r, tier)...)
+	if tier == "thorough" {
+		out = append(out, exhaustiveSmall()...)
+	}
+	return out
+}
+
+// regCases: constructor / default-config TYPES for Register: the supported ones and their neighbours.
+// thorough: the full enumeration; quick: a sample of it (the corpus holds one witness per expectation).
+func regCases(r *rand.Rand, tier string) []string {
+	cfgs := []string{"S", "*S", "T", "*T", "i", "*i", "**S", "M"}
+	ins := []string{""}
+	ins = append(ins, cfgs...)
+	for _, a := range cfgs {
+		ins = append(ins, a+","+[]string{"S", "*S", "E"}[len(a)%3])
+	}
+	prods := []string{"M", "I", "J", "E", "*S", "i", "*M", "F(;M)", "F(;I,E)", "F(;M,E)", "F(S;M)", "F(;M,E,E)", "F(;*S)", "F(;)", "F(;J,E)", "F(;M,i)", "F(;F(;M))"}
+	outs := []string{""}
+	for _, p := range prods {
+		outs = append(outs, p)
+		for _, e := range []string{"E", "i", "J", "M", "*S"} {
+			outs = append(outs, p+","+e)
+		}
+		outs = append(outs, p+",E,E", p+",E,i")
+	}
+	var all []string
+	for _, i := range ins {
+		in0 := strings.Split(i, ",")[0]
+		dts := []string{"-", "F(;S)", "F(;*S)", "S", "F(S;S)", "F(;S,E)", "F(;T)"}
+		if in0 != "" && in0 != "S" && in0 != "*S" {
+			dts = append(dts, "F(;"+in0+")")
+		}
+		for _, o := range outs {
+			for _, d := range dts {
+				all = append(all, fmt.Sprintf("via=reg ty=F(%s;%s) dt=%s", i, o, d))
+			}
+		}
+	}
+	// not even a func; Register's own expectations
+	for _, t := range []string{"i", "S", "*S", "M", "*F(;M)"} {
+		all = append(all, "via=reg ty="+t+" dt=-", "via=reg ty="+t+" dt=F(;S)")
+	}
+	for _, extra := range []string{"pt=S", "pt=*S", "pt=J", "pt=E", "nm=e", "dup=1", "pt=F(;I)"} {
+		for _, t := range []string{"F(;I)", "F(;M)", "F(;J)", "F(*S;M,E)", "F(;F(;I,E))", "F(;E)"} {
+			all = append(all, "via=reg ty="+t+" dt=- "+extra)
+		}
+	}
+	if tier == "thorough" {
+		return all
+	}
+	var out []string
+	for i := 0; i < 400; i++ {
+		out = append(out, all[r.Intn(len(all))])
+	}
+	return out
+}
+
+// exhaustiveSmall: every valid shape x form x fillConf given or not, k = 2, EVERY fault plan over the invocation
+// indices 0..2 of every kind of user code that can fail for the shape.
+func exhaustiveSmall() []string {
+	var out []string
+	subsets := func(on bool) []string {
+		if !on {
+			return []string{""}
+		}
+		var ss []string
+		for m := 0; m < 8; m++ {
+			var idx []string
+			for i := 0; i < 3; i++ {
+				if m&(1<<i) != 0 {
+					idx = append(idx, strconv.Itoa(i))
+				}
+			}
+			ss = append(ss, strings.Join(idx, ","))
+		}
+		return ss
+	}
+	for _, fa := range "PF" {
+		for _, cfg := range "nsp" {
+			for _, ce := range "E-" {
+				for _, fe := range "E-" {
+					if fa == 'P' && fe == 'E' {
+						continue
+					}
+					for _, ifc := range "IM" {
+						for _, df := range "afns" {
+							if (cfg == 'n' && df != 'a') || (cfg == 's' && (df == 'n' || df == 's')) {
+								continue
+							}
+							for _, form := range []string{"c", "f1", "f2"} {
+								for fill := 0; fill < 2; fill++ {
+									for _, ff := range subsets(fill == 1) {
+										for _, cf := range subsets(ce == 'E') {
+											for _, rf := range subsets(fa == 'F' && fe == 'E') {
+												out = append(out, fmt.Sprintf("sh=%c%c%c%c%c%c form=%s fill=%d d=5/6/7 u=_/9/_ k=2 ff=%s cf=%s rf=%s",
+													fa, cfg, ce, fe, ifc, df, form, fill, ff, cf, rf))
+											}
+										}
 									}
 								}
 							}
